@@ -6,15 +6,21 @@ import common
 
 ID = "C03"
 LEAN_MODEL_TARGETS = ["drv_c03"]
-LEAN_PROOF_TARGETS = ["PyroProps.C03"]
-AUDIT_FILES = ["PyroModel/Call.lean", "PyroModel/Gen/C03.lean", "PyroProofs/Call.lean", "PyroProps/C03.lean"]
+LEAN_PROOF_TARGETS = ["PyroProps.C03", "PyroProps.C03Src"]
+AUDIT_FILES = ["PyroModel/Call.lean", "PyroModel/Gen/C03.lean", "PyroProofs/Call.lean", "PyroProps/C03.lean",
+               "PyroModel/CallOps.lean", "PyroModel/Gen/C03Src.lean", "PyroProps/C03Src.lean"]
 THEOREMS = ["Pyro.C03.C03_own_reply_partial", "Pyro.C03.C03_own_reply_full_false",
             "Pyro.C03.C03_exec_once_partial", "Pyro.C03.C03_exec_once_full_false",
             "Pyro.C03.C03_exec_bound", "Pyro.C03.C03_oneway", "Pyro.C03.C03_recovers", "Pyro.C03.C03_fault_free", "Pyro.C03.C03_wrap",
             "Pyro.C03.C03_never_stuck", "Pyro.C03.C03_reachable_inv",
             "Pyro.C03.C03_seqcheck_needed", "Pyro.C03.C03_release_needed",
             "Pyro.C03.C03_gen_seq", "Pyro.C03.C03_gen_invoke", "Pyro.C03.C03_gen_retry", "Pyro.C03.C03_gen_paths",
-            "Pyro.C03.C03_gen_server"]
+            "Pyro.C03.C03_gen_server",
+            # the transcription of Proxy._pyroInvoke (Gen/C03Src.lean, harness/props/c03_tr.py) = the hand model, and the
+            # main theorems restated about it
+            "Pyro.C03.C03_pyroInvoke_translated", "Pyro.C03.C03_call_translated", "Pyro.C03.C03_source_own_reply",
+            "Pyro.C03.C03_source_oneway", "Pyro.C03.C03_source_released", "Pyro.C03.C03_source_recovers",
+            "Pyro.C03.C03_gen_src_consts", "Pyro.C03.C03_remoteCall_translated"]
 SUITES = ["history"]
 RULE = ("histories of 1-40 calls (thorough: up to 70000, crossing the 16-bit wrap) on ONE real Proxy against the real Daemon over "
         "an in-memory transport; each call is normal / raising / stream-returning / oneway / batch / oneway batch / attribute "
@@ -36,7 +42,9 @@ ASSUMPTIONS = [
 ]
 TRUSTED = ["harness/props/c03_net.py: in-memory transport between the real Proxy and the real Daemon "
            "(patched socketutil.create_socket; daemon side with its own copy of the thread-local call context; "
-           "_OnewayCallThread.start joined)"]
+           "_OnewayCallThread.start joined)",
+           "harness/props/c03_tr.py: translator of Proxy._pyroInvoke / _RemoteMethod.__call__ into Lean (sound by refusal) and "
+           "lean/PyroModel/CallOps.lean: the operations (collaborators) its output is written against"]
 
 CORPUS = os.path.join(common.VERIF, "corpus", "C03")
 EVS = ["ok", "lo", "la", "cu", "rb", "ra", "st", "sh", "sq", "du", "in"]
@@ -46,7 +54,14 @@ EVS = ["ok", "lo", "la", "cu", "rb", "ra", "st", "sh", "sq", "du", "in"]
 # A: extractor  (harness/props/c03_extract.py: facts are obtained by probing the real objects, not from syntax)
 # =====================================================================================================
 def extract():
-    from props import c03_extract
+    from props import c03_extract, c03_tr
+    # the source of Proxy._pyroInvoke / _RemoteMethod.__call__ transcribed into Lean (raises Untranslatable = broken tie)
+    src = c03_tr.translate_all()
+    path = os.path.join(common.VERIF, "lean", "PyroModel", "Gen", "C03Src.lean")
+    old = open(path).read() if os.path.exists(path) else None
+    if old != src:
+        with open(path, "w") as f:
+            f.write(src)
     return c03_extract.extract()
 
 
